@@ -673,3 +673,11 @@ pub fn batch(out: &str, tier: &str, seed: u64) -> Value {
     json!({"family": "lifecycle", "runs": b.runs, "events": b.events, "distinct": b.hashes.len(),
            "distinct_nontrivial": nontrivial.len(), "bad_runs": bad_runs, "samples": b.samples})
 }
+
+pub fn dispatch(cmd: &str, a: &std::collections::HashMap<String, String>) -> Option<Value> {
+    let (out, tier, seed) = crate::common(a);
+    match cmd {
+        "lifecycle" => Some(batch(&out, &tier, seed)),
+        _ => None,
+    }
+}
